@@ -48,6 +48,9 @@ struct Ctx {
   sim_start: i64,
   sim_max: i64,
   clock_reads: Vec<i64>,
+  /// values that are not decided by the tape (identifiers drawn by production code from the OS RNG) and the aliases
+  /// that stand for them in traces, signatures and messages; longest value first
+  scrub: Vec<(String, String)>,
 }
 
 thread_local! {
@@ -74,6 +77,7 @@ pub fn begin(tape: Tape, keep_trace: bool) {
       sim_start: BASE_TIME,
       sim_max: BASE_TIME,
       clock_reads: Vec::new(),
+      scrub: Vec::new(),
     })
   });
 }
@@ -128,8 +132,39 @@ pub fn pick<T: Clone>(items: &[T]) -> T {
 }
 
 /// Appends a line to the trace (hashed always, stored only when traces are kept).
+/// Registers a value that the tape does not decide (it differs from one execution to the next) together with the
+/// alias that replaces it wherever the run writes it down.
+pub fn scrub(value: impl Into<String>, alias: impl Into<String>) {
+  let (value, alias) = (value.into(), alias.into());
+  if value.is_empty() {
+    return;
+  }
+  with(|c| {
+    if !c.scrub.iter().any(|(v, _)| *v == value) {
+      c.scrub.push((value, alias));
+      c.scrub.sort_by(|a, b| b.0.len().cmp(&a.0.len()).then(a.0.cmp(&b.0)));
+    }
+  })
+}
+
+fn scrubbed(line: &str) -> String {
+  with(|c| {
+    if c.scrub.is_empty() {
+      return line.to_owned();
+    }
+    let mut out = line.to_owned();
+    for (v, a) in &c.scrub {
+      if out.contains(v.as_str()) {
+        out = out.replace(v.as_str(), a);
+      }
+    }
+    out
+  })
+}
+
 pub fn trace(line: impl AsRef<str>) {
-  let line = line.as_ref();
+  let line = scrubbed(line.as_ref());
+  let line = line.as_str();
   with(|c| {
     c.hash.write(line.as_bytes());
     c.hash.write(b"\n");
@@ -176,8 +211,8 @@ pub fn violation(property: &str, invariant: &str, signature: impl Into<String>, 
   let v = Violation {
     property: property.to_owned(),
     invariant: invariant.to_owned(),
-    signature: signature.into(),
-    message: message.into(),
+    signature: scrubbed(&signature.into()),
+    message: scrubbed(&message.into()),
   };
   trace(format!("VIOLATION {} [{}]: {}", v.invariant, v.signature, v.message));
   with(|c| c.violations.push(v));
